@@ -375,7 +375,7 @@ def fundOrLocate (s : AState) (a : Acct) (onRestart onRecovery feeOk : Bool) (fu
     if look && s.walletFail then .fail .err
     else if onRecovery then .cancel
     else if !feeOk then .fail .err
-    else if !acts.contains "[createTx]SendOutputs" then .fail .err
+    else if !acts.contains "[notLocated]SendOutputs" then .fail .err
     else match fundTx with
       | none => .fail .err
       | some (id, idx) =>
